@@ -121,7 +121,27 @@ FORMATS = [
     (["%B", " ", "%-d", ", ", "%Y", " (", "%a", ")"], True),
     (["%dth", " of ", "%B", " ", "%Y"], True),
     (["%Y", " ", "%jth"], True),
+    (["%Y", " ", "%U", " ", "%w"], True),
+    (["%Y", " ", "%W", " ", "%w"], True),
 ]
+
+
+def _one_week_late(day, got):
+    """a year that begins on a Friday, Saturday or Sunday, and the text comes back exactly seven days later"""
+    import re
+    d = datetime.date.fromisoformat(day)
+    m = re.match(r"\((\d+), (\d+), (\d+)\)", got)
+    if not m or datetime.date(d.year, 1, 1).isoweekday() < 5:
+        return False
+    try:
+        return datetime.date(*(int(x) for x in m.groups())) == d + datetime.timedelta(days=7)
+    except ValueError:
+        return False
+
+
+# parse-back failures of a recognisable kind are reported under a site of their own (so that a known finding about one kind does not
+# cover anything else that may go wrong with the same format)
+KINDS = {"%Y %W %w": ("years that begin on a Friday, Saturday or Sunday come back one week late", _one_week_late)}
 _G = {}
 
 
@@ -345,6 +365,17 @@ def run_parallel(R, P, rule, every=False, jobs=12, parse=True, reprs=True):
             bad.setdefault(key, []).extend(lst)
     for items, back in FORMATS:
         fmt = "".join(items)
+        if fmt in bad and fmt in KINDS:
+            label, pred = KINDS[fmt]
+            kind = sorted(x for x in bad[fmt] if x[1] == "parse" and pred(x[0], x[2]))
+            if kind:
+                day, what, got, exp = kind[0]
+                R.finding(rule, tu.func("dt_strpd"), "format `%s`, parsed back: %s" % (fmt, label), "%d days of the grid do not come back; first: "
+                          "%s printed as %s parses to %s" % (len(kind), day, exp, got))
+                bad[fmt] = [x for x in bad[fmt] if x not in kind]
+                if not bad[fmt]:
+                    del bad[fmt]
+                    continue
         if fmt in bad:
             lst = sorted(bad[fmt])
             day, what, got, exp = lst[0]
